@@ -104,6 +104,7 @@ def _decide_chunk(args):
             continue
         rp_txt = spec_iface.text_of(st["rp"], grid)
         real = []
+        scored = []
         for i, (t, a) in enumerate(pairs):
             want = st["wants"][i]
             n += 1
@@ -124,8 +125,22 @@ def _decide_chunk(args):
                 cls = "accepts-unloadable" if got is not None else "rejects-loadable"
                 fails.append((f"C08:{site}:{cls}", f"requires_python {rp_txt!r} setting {st['set']}: {py_tag(t)}-{abi_tag(a)} -> {got}; "
                               f"rule says {'compatible' if want[0] == 1 else 'incompatible'}", ctx))
-            elif got is not None and tuple(got[:3]) != tuple(want[1:]):
-                fails.append((f"C08:{site}:score", f"{py_tag(t)}-{abi_tag(a)} scored {got[:3]}, rule says {want[1:]}", ctx))
+            elif got is not None:
+                scored.append((tuple(want[1:]), tuple(got[:3]), site, py_tag(t), abi_tag(a), ctx))
+        # the score ORDERS candidates (interpreter version, then native ABI > abi3 > none); its scale is not part of the statement:
+        # the real scores must be an order-isomorphic image of the rule's (same order, same ties)
+        by_want: dict = {}
+        for w, g, site, pt_, at_, ctx in scored:
+            by_want.setdefault(w, []).append((g, site, pt_, at_, ctx))
+        prev = None
+        for w in sorted(by_want):
+            gs = {g for g, *_ in by_want[w]}
+            g0, site, pt_, at_, ctx = by_want[w][0]
+            if len(gs) > 1:
+                fails.append((f"C08:{site}:score", f"candidates of equal rank {w} are scored differently: {sorted(gs)[:3]}", ctx))
+            elif prev is not None and not (prev[1] < g0):
+                fails.append((f"C08:{site}:score", f"{pt_}-{at_} (rank {w}) scored {g0}, not above {prev[2]} (rank {prev[0]}) scored {prev[1]}", ctx))
+            prev = (w, max(gs), f"{pt_}-{at_}")
         # compressed tag sets: compatibility of a multi-tag wheel is the max over its combinations
         for _ in range(3):
             idx = rng.sample(range(len(pairs)), 3)
